@@ -180,8 +180,9 @@ class ProductMode:
         # Late import to speedup start-up time
         import pandas as pd
 
+        # A value listed twice gives one coordinate (as without dask)
         all_steps: Mapping[str, Sequence[Any]] = {
-            step.key: list(step) for step in self.enabled_steps
+            step.key: list(dict.fromkeys(step)) for step in self.enabled_steps
         }
         params_names = [dim_names[key] for key in all_steps]
         params_indexes = pd.MultiIndex.from_product(
